@@ -115,7 +115,7 @@ def run(ctx):
                 "size_rule_admits_weak_modulus", "authorized_blob_keys_sound",
                 # round 3: header block -> Header.Get("Authorization") -> decision
                 "headerGet_first", "headerGet_none", "later_authorization_lines_are_ignored", "no_authorization_line_is_denied",
-                "header_block_granted_sound"]
+                "header_block_granted_sound", "no_bypass_header_block", "malformed_block_runs_nothing", "fact_authentication_credential"]
     for r in required:
         if not any(t.endswith("Props." + r) for t in thms):
             ctx.oblige("thm-present:" + r, False, "theorem missing or its module does not build")
